@@ -127,6 +127,7 @@ OBJ_SIGS = {
     'Auto1': dict(args=[('a', None, True), ('b', 0, False), ('verbose', False, False)], ignore={'verbose', 'debug'}, dpdv=set()),
     'Auto2': dict(args=[('a', None, True), ('c', 5, False)], ignore={'verbose', 'debug'}, dpdv={'c'}),
     'Auto3': dict(args=[('a', None, True), ('pad', 0, False)], ignore={'verbose', 'debug'}, dpdv=set()),
+    'AutoBoth': dict(args=[('cols', None, True)], ignore={'verbose', 'debug'}, dpdv=set()),
 }
 
 
@@ -137,6 +138,7 @@ def obj_bind(v):
            'Auto2': [('a', None, True), ('c', 5, False)],
            'Auto3': [('a', None, True), ('pad', 0, False)],
            'AutoSet': [('items', None, True)],
+           'AutoBoth': [('cols', None, True)],
            'Plain1': [('a', None, True), ('b', 0, False)],
            'Hand1': [('a', None, True)]}[cls]
     bound = {}
@@ -181,7 +183,7 @@ def obj_repr(v):
 def obj_state(v):
     b = obj_bind(v)
     cls = v['__obj__']
-    keys = {'Auto1': ['a', 'b'], 'Auto2': ['a', 'c'], 'Auto3': ['a', 'pad'], 'AutoSet': ['items'], 'Plain1': ['a', 'b'], 'Hand1': ['a']}[cls]
+    keys = {'Auto1': ['a', 'b'], 'Auto2': ['a', 'c'], 'Auto3': ['a', 'pad'], 'AutoSet': ['items'], 'AutoBoth': ['cols'], 'Plain1': ['a', 'b'], 'Hand1': ['a']}[cls]
     return {'__obj__': cls, 'state': {k: term_value(b[k]) for k in keys}}
 
 
